@@ -245,6 +245,8 @@ def m_cancel(run):
     if not c:
         return f
     how = c['how']
+    if how == 'exit_nowait':
+        return f
     applied = {}      # t -> index of the cancel that was applied while not done
     first_queued = {}
     for i, r in enumerate(run.trace):
@@ -383,6 +385,14 @@ def make_limit_sampler(cfg_of):
             if len(live) > lim and len(v) < 3:
                 v.append(f'step {sched.step}: {len(live)} live upload buffers (limit {lim})')
             big = max(cfg['multipart_chunksize'], cfg['multipart_threshold'])
+            # bytes read from user streams and not yet released by a finished part body
+            read = getattr(run, 'stream_bytes_read', [0])[0]
+            released = sum(b.size0 for b in bufs if b.closed or getattr(b, 'dead', False))
+            held = read - released
+            run.max_held = max(getattr(run, 'max_held', 0), held)
+            if held > lim * big and len(v) < 3:
+                v.append(f'step {sched.step}: {held} bytes read from upload streams are held in memory '
+                         f'(limit ({cfg["max_in_memory_upload_chunks"]} + {cfg["max_submission_concurrency"]}) x {big} = {lim * big})')
             for b in live:
                 if len(b.getbuffer()) > big and len(v) < 3:
                     v.append(f'step {sched.step}: an upload buffer of {len(b.getbuffer())} bytes (limit {big})')
